@@ -22,7 +22,9 @@ RectCases == {[blk |-> "rect", axes |-> ax] : ax \in {<<<<0, 5>>, <<1, 2>>>>, <<
 \* the equator), so that every distance is a whole number of degrees
 LookCases == {[blk |-> "look", lat |-> <<-90, -30, 0, 60, 90, 0, 30>>, lon |-> <<0, 0, 0, 0, 0, 180, 180>>, q |-> q]
               : q \in {<<10, 0>>, <<80, 0>>, <<-50, 0>>, <<15, 0>>, <<-60, 0>>, <<45, 180>>, <<85, 180>>, <<90, 33>>,
-                        <<-15, 180>>, <<30, 0>>}}
+                        <<-15, 180>>, <<30, 0>>,
+                        \* at a node whose antipode is a node too, and at the antipode of a node
+                        <<30, 180>>, <<0, 180>>, <<-30, 0>>, <<-60, 180>>, <<-90, 77>>}}
              \cup {[blk |-> "look", lat |-> <<0, 0, 0, 0, 0>>, lon |-> <<-170, -90, 0, 45, 180>>, q |-> q]
                    : q \in {<<0, 170>>, <<0, -175>>, <<0, 100>>, <<0, -44>>, <<0, 22>>, <<0, 23>>, <<0, 360>>, <<0, -135>>}}
 Cases == SetToSeq(GeoCases) \o SetToSeq(EucCases) \o SetToSeq(RectCases) \o SetToSeq(LookCases)
